@@ -1,1 +1,301 @@
+/-
+  Lemmas/C08.lean — list-level lemmas for the Lie-series model (Core/C08.lean): which monomials can occur in the
+  result of each kernel (degree bookkeeping) and how `coeff` behaves under the linear kernels, `normalize`, `clean`.
+-/
 import HitenModel.Core.C08
+import Mathlib.Algebra.Field.Basic
+import Mathlib.Tactic.Ring
+import Mathlib.Tactic.SplitIfs
+import Mathlib.Data.List.Basic
+
+set_option linter.unusedSectionVars false
+
+namespace HitenModel.C08
+
+/-! ### monomials -/
+
+theorem Mono.deg_add (m n : Mono) : (m.add n).deg = m.deg + n.deg := by
+  simp only [Mono.add, Mono.deg]; omega
+
+theorem Mono.deg_dec (m : Mono) (j : Nat) (h : m.get j ≠ 0) : (m.dec j).deg + 1 = m.deg := by
+  unfold Mono.get at h
+  unfold Mono.dec Mono.deg
+  split <;> simp_all <;> omega
+
+/-! ### which monomials occur (support / degree bookkeeping) -/
+
+section support
+variable {K : Type} [Add K] [Sub K] [Mul K] [Div K] [Neg K] [OfNat K 0] [OfNat K 1] [NatCast K] [DecidableEq K]
+
+theorem mem_scale {a : K} {p : Poly K} {t : Mono × K} (h : t ∈ scale a p) : ∃ u ∈ p, u.1 = t.1 := by
+  simp only [scale, List.mem_map] at h
+  obtain ⟨u, hu, rfl⟩ := h
+  exact ⟨u, hu, rfl⟩
+
+theorem mem_neg {p : Poly K} {t : Mono × K} (h : t ∈ neg p) : ∃ u ∈ p, u.1 = t.1 := by
+  simp only [neg, List.mem_map] at h
+  obtain ⟨u, hu, rfl⟩ := h
+  exact ⟨u, hu, rfl⟩
+
+theorem mem_diff {j : Nat} {p : Poly K} {t : Mono × K} (h : t ∈ diff j p) :
+    ∃ u ∈ p, u.1.get j ≠ 0 ∧ t.1 = u.1.dec j := by
+  simp only [diff, List.mem_filterMap] at h
+  obtain ⟨u, hu, hf⟩ := h
+  by_cases h0 : u.1.get j = 0
+  · simp [h0] at hf
+  · simp only [h0, ↓reduceIte, Option.some.injEq] at hf
+    exact ⟨u, hu, h0, by rw [← hf]⟩
+
+theorem mem_mul {p q : Poly K} {t : Mono × K} (h : t ∈ mul p q) : ∃ u ∈ p, ∃ v ∈ q, t.1 = u.1.add v.1 := by
+  simp only [mul, mulTerm, List.mem_flatMap, List.mem_map] at h
+  obtain ⟨u, hu, v, hv, rfl⟩ := h
+  exact ⟨u, hu, v, hv, rfl⟩
+
+theorem mem_poissonPair {m : Nat} {p q : Poly K} {t : Mono × K} (h : t ∈ poissonPair m p q) :
+    ∃ u ∈ p, ∃ v ∈ q, t.1.deg + 2 = u.1.deg + v.1.deg := by
+  simp only [poissonPair, List.mem_append] at h
+  rcases h with h | h
+  · obtain ⟨a, ha, b, hb, e⟩ := mem_mul h
+    obtain ⟨u, hu, hu0, eu⟩ := mem_diff ha
+    obtain ⟨v, hv, hv0, ev⟩ := mem_diff hb
+    refine ⟨u, hu, v, hv, ?_⟩
+    rw [e, Mono.deg_add, eu, ev]
+    have := Mono.deg_dec u.1 m hu0
+    have := Mono.deg_dec v.1 (m + 3) hv0
+    omega
+  · obtain ⟨w, hw, ew⟩ := mem_neg h
+    obtain ⟨a, ha, b, hb, e⟩ := mem_mul hw
+    obtain ⟨u, hu, hu0, eu⟩ := mem_diff ha
+    obtain ⟨v, hv, hv0, ev⟩ := mem_diff hb
+    refine ⟨u, hu, v, hv, ?_⟩
+    rw [← ew, e, Mono.deg_add, eu, ev]
+    have := Mono.deg_dec u.1 (m + 3) hu0
+    have := Mono.deg_dec v.1 m hv0
+    omega
+
+/-- every term of `{p,q}` comes from a term of `p` of degree `d` and a term of `q` of degree `n` and has degree `d+n-2` -/
+theorem mem_poisson {p q : Poly K} {t : Mono × K} (h : t ∈ poisson p q) :
+    ∃ u ∈ p, ∃ v ∈ q, t.1.deg + 2 = u.1.deg + v.1.deg := by
+  simp only [poisson, List.mem_append] at h
+  rcases h with h | h | h <;> exact mem_poissonPair h
+
+theorem mem_mergeGo {cur : Mono × K} {r : Poly K} {t : Mono × K} (h : t ∈ mergeGo cur r) :
+    t.1 = cur.1 ∨ ∃ u ∈ r, u.1 = t.1 := by
+  induction r generalizing cur with
+  | nil => simp only [mergeGo, List.mem_singleton] at h; exact Or.inl (by rw [h])
+  | cons a r ih =>
+    simp only [mergeGo] at h
+    split_ifs at h with e
+    · rcases ih h with h1 | ⟨u, hu, e1⟩
+      · exact Or.inl h1
+      · exact Or.inr ⟨u, List.mem_cons_of_mem _ hu, e1⟩
+    · rcases List.mem_cons.mp h with h1 | h1
+      · exact Or.inl (by rw [h1])
+      · rcases ih h1 with h2 | ⟨u, hu, e1⟩
+        · exact Or.inr ⟨a, List.mem_cons_self, h2.symm⟩
+        · exact Or.inr ⟨u, List.mem_cons_of_mem _ hu, e1⟩
+
+theorem mem_mergeAdj {p : Poly K} {t : Mono × K} (h : t ∈ mergeAdj p) : ∃ u ∈ p, u.1 = t.1 := by
+  cases p with
+  | nil => simp [mergeAdj] at h
+  | cons a r =>
+    have h' : t ∈ mergeGo a r := h
+    rcases mem_mergeGo h' with h1 | ⟨u, hu, e⟩
+    · exact ⟨a, List.mem_cons_self, h1.symm⟩
+    · exact ⟨u, List.mem_cons_of_mem _ hu, e⟩
+
+/-- `normalize` creates no new monomials -/
+theorem mem_normalize {p : Poly K} {t : Mono × K} (h : t ∈ normalize p) : ∃ u ∈ p, u.1 = t.1 := by
+  simp only [normalize, List.mem_filter] at h
+  obtain ⟨u, hu, e⟩ := mem_mergeAdj h.1
+  exact ⟨u, (List.mergeSort_perm p _).mem_iff.mp hu, e⟩
+
+theorem mem_clean {tiny : K → Bool} {p : Poly K} {t : Mono × K} (h : t ∈ clean tiny p) : ∃ u ∈ p, u.1 = t.1 := by
+  simp only [clean, List.mem_filter] at h
+  exact mem_normalize h.1
+
+theorem mem_solve {small : K → Bool} {e1 e2 e3 : K} {p : Poly K} {t : Mono × K} (h : t ∈ solve small e1 e2 e3 p) :
+    ∃ u ∈ p, u.1 = t.1 := by
+  simp only [solve, List.mem_filterMap] at h
+  obtain ⟨u, hu, hf⟩ := h
+  split_ifs at hf
+  simp only [Option.some.injEq] at hf
+  exact ⟨u, hu, by rw [← hf]⟩
+
+/-- **degree bookkeeping of the Lie series**: if every term of `B` has degree `≥ d` and the generator is homogeneous
+of degree `n ≥ 2`, every term `(1/k!) B_k` of the series has degree `≥ d + (n-2)` and `≤ N` -/
+theorem mem_lieTerms {tiny : K → Bool} {N n : Nat} {G : Poly K} (hG : ∀ v ∈ G, v.1.deg = n) (hn : 2 ≤ n) :
+    ∀ (Kc k d : Nat) (B : Poly K), (∀ u ∈ B, d ≤ u.1.deg) → ∀ t ∈ lieTerms tiny N G Kc k B,
+      d + (n - 2) ≤ t.1.deg ∧ t.1.deg ≤ N := by
+  intro Kc
+  induction Kc with
+  | zero => intro k d B _ t ht; simp [lieTerms] at ht
+  | succ Kc ih =>
+    intro k d B hB t ht
+    simp only [lieTerms, List.mem_append] at ht
+    have hB' : ∀ u ∈ clean tiny (trunc N (poisson B G)), d + (n - 2) ≤ u.1.deg ∧ u.1.deg ≤ N := by
+      intro u hu
+      obtain ⟨w, hw, e⟩ := mem_clean hu
+      simp only [trunc, List.mem_filter, decide_eq_true_eq] at hw
+      obtain ⟨a, ha, b, hb, hd⟩ := mem_poisson hw.1
+      have h1 := hB a ha
+      have h2 := hG b hb
+      rw [← e]
+      exact ⟨by omega, hw.2⟩
+    rcases ht with ht | ht
+    · obtain ⟨u, hu, e⟩ := mem_scale ht
+      rw [← e]; exact hB' u hu
+    · have := ih (k + 1) (d + (n - 2)) _ (fun u hu => (hB' u hu).1) t ht
+      exact ⟨by omega, this.2⟩
+
+end support
+
+/-! ### coefficients -/
+
+section coeff
+variable {K : Type} [Field K] [DecidableEq K]
+
+@[simp] theorem coeff_nil (m : Mono) : coeff ([] : Poly K) m = 0 := rfl
+
+theorem coeff_cons (t : Mono × K) (r : Poly K) (m : Mono) :
+    coeff (t :: r) m = (if t.1 = m then t.2 else 0) + coeff r m := by
+  simp only [coeff]; split_ifs <;> simp
+
+theorem coeff_append (p q : Poly K) (m : Mono) : coeff (p ++ q) m = coeff p m + coeff q m := by
+  induction p with
+  | nil => simp
+  | cons t r ih => rw [List.cons_append, coeff_cons, coeff_cons, ih]; ring
+
+/-- a monomial that does not occur has coefficient 0 -/
+theorem coeff_eq_zero_of_not_mem {p : Poly K} {m : Mono} (h : ∀ t ∈ p, t.1 ≠ m) : coeff p m = 0 := by
+  induction p with
+  | nil => rfl
+  | cons t r ih =>
+    rw [coeff_cons, ih (fun u hu => h u (List.mem_cons_of_mem _ hu)), if_neg (h t List.mem_cons_self)]; ring
+
+theorem coeff_scale (a : K) (p : Poly K) (m : Mono) : coeff (scale a p) m = a * coeff p m := by
+  induction p with
+  | nil => simp [scale]
+  | cons t r ih =>
+    have : scale a (t :: r) = (t.1, a * t.2) :: scale a r := rfl
+    rw [this, coeff_cons, coeff_cons, ih]; split_ifs <;> ring
+
+theorem coeff_neg (p : Poly K) (m : Mono) : coeff (neg p) m = - coeff p m := by
+  induction p with
+  | nil => simp [neg]
+  | cons t r ih =>
+    have : neg (t :: r) = (t.1, -t.2) :: neg r := rfl
+    rw [this, coeff_cons, coeff_cons, ih]; split_ifs <;> ring
+
+/-- filtering on a property of the monomial -/
+theorem coeff_filter_mono (P : Mono → Bool) (p : Poly K) (m : Mono) :
+    coeff (p.filter fun t => P t.1) m = if P m then coeff p m else 0 := by
+  induction p with
+  | nil => simp
+  | cons t r ih =>
+    rw [List.filter_cons]
+    by_cases hP : P t.1 = true
+    · rw [if_pos hP, coeff_cons, coeff_cons, ih]
+      by_cases e : t.1 = m
+      · subst e; simp [hP]
+      · simp [e]
+    · rw [if_neg hP, ih, coeff_cons]
+      by_cases e : t.1 = m
+      · subst e; simp [hP]
+      · simp [e]
+
+theorem coeff_select (sel : Mono → Bool) (p : Poly K) (m : Mono) :
+    coeff (select sel p) m = if sel m then coeff p m else 0 := coeff_filter_mono sel p m
+
+theorem coeff_block (d : Nat) (p : Poly K) (m : Mono) :
+    coeff (block d p) m = if m.deg = d then coeff p m else 0 := by
+  have := coeff_filter_mono (fun k => decide (k.deg = d)) p m
+  simpa [block] using this
+
+theorem coeff_trunc (N : Nat) (p : Poly K) (m : Mono) :
+    coeff (trunc N p) m = if m.deg ≤ N then coeff p m else 0 := by
+  have := coeff_filter_mono (fun k => decide (k.deg ≤ N)) p m
+  simpa [trunc] using this
+
+/-- dropping terms whose coefficient is zero does not change any coefficient -/
+theorem coeff_filter_of_zero (keep : Mono × K → Bool) (p : Poly K) (h : ∀ t ∈ p, keep t = false → t.2 = 0) (m : Mono) :
+    coeff (p.filter keep) m = coeff p m := by
+  induction p with
+  | nil => rfl
+  | cons t r ih =>
+    have ihr := ih (fun u hu => h u (List.mem_cons_of_mem _ hu))
+    rw [List.filter_cons]
+    by_cases hk : keep t = true
+    · rw [if_pos hk, coeff_cons, coeff_cons, ihr]
+    · rw [if_neg hk, ihr, coeff_cons, h t List.mem_cons_self (by simpa using hk)]; simp
+
+theorem coeff_perm {p q : Poly K} (h : p.Perm q) (m : Mono) : coeff p m = coeff q m := by
+  induction h with
+  | nil => rfl
+  | cons x _ ih => rw [coeff_cons, coeff_cons, ih]
+  | swap x y l => rw [coeff_cons, coeff_cons, coeff_cons, coeff_cons]; ring
+  | trans _ _ ih1 ih2 => rw [ih1, ih2]
+
+theorem coeff_mergeGo (cur : Mono × K) (r : Poly K) (m : Mono) : coeff (mergeGo cur r) m = coeff (cur :: r) m := by
+  induction r generalizing cur with
+  | nil => rfl
+  | cons a r ih =>
+    simp only [mergeGo]
+    split_ifs with e
+    · rw [ih, coeff_cons, coeff_cons, coeff_cons]
+      by_cases e2 : cur.1 = m
+      · simp [e2, e ▸ e2]; ring
+      · have : ¬ a.1 = m := fun h => e2 (e ▸ h)
+        simp [e2, this]
+    · rw [coeff_cons, ih, coeff_cons cur]
+
+theorem coeff_mergeAdj (p : Poly K) (m : Mono) : coeff (mergeAdj p) m = coeff p m := by
+  cases p with
+  | nil => rfl
+  | cons a r => exact coeff_mergeGo a r m
+
+/-- `normalize` preserves every coefficient -/
+theorem coeff_normalize (p : Poly K) (m : Mono) : coeff (normalize p) m = coeff p m := by
+  unfold normalize
+  rw [coeff_filter_of_zero, coeff_mergeAdj, coeff_perm (List.mergeSort_perm p _)]
+  intro t _ h
+  simpa using h
+
+/-- with exact cleaning (`tiny c → c = 0`; the code's `tol = 1e-30` against exact arithmetic) `clean` preserves coefficients -/
+theorem coeff_clean {tiny : K → Bool} (htiny : ∀ c, tiny c = true → c = 0) (p : Poly K) (m : Mono) :
+    coeff (clean tiny p) m = coeff p m := by
+  unfold clean
+  rw [coeff_filter_of_zero, coeff_normalize]
+  intro t _ h
+  exact htiny _ (by simpa using h)
+
+/-- `not arr.any()`: an empty normal form means that every coefficient vanishes -/
+theorem coeff_of_normalize_isEmpty {p : Poly K} (h : (normalize p).isEmpty = true) (m : Mono) : coeff p m = 0 := by
+  rw [← coeff_normalize p m, List.isEmpty_iff.mp h]; rfl
+
+/-- `_solve_homological_equation` monomial by monomial -/
+theorem coeff_solve (small : K → Bool) (e1 e2 e3 : K) (p : Poly K) (m : Mono) :
+    coeff (solve small e1 e2 e3 p) m
+      = if small (divisor e1 e2 e3 m) then 0 else - coeff p m / divisor e1 e2 e3 m := by
+  induction p with
+  | nil => simp [solve]
+  | cons t r ih =>
+    unfold solve at ih ⊢
+    rw [List.filterMap_cons]
+    by_cases hs : small (divisor e1 e2 e3 t.1) = true
+    · simp only [hs, ↓reduceIte]
+      rw [ih, coeff_cons]
+      by_cases e : t.1 = m
+      · subst e; simp [hs]
+      · simp [e]
+    · simp only [hs, Bool.false_eq_true, ↓reduceIte]
+      rw [coeff_cons, ih, coeff_cons]
+      by_cases e : t.1 = m
+      · subst e
+        simp only [hs, Bool.false_eq_true, ↓reduceIte]
+        ring
+      · simp [e]
+
+end coeff
+
+end HitenModel.C08
